@@ -72,13 +72,19 @@ pub fn run(ctx: &mut Ctx) -> Result<RunOut, Violation> {
     let focus = ctx.focus;
     let t = &mut ctx.tape;
     let chunk = if crate::core::deep() { [1usize, 2, 3, 4, 7, 16, 5, 64, 4096][t.draw(9) as usize] } else { [1usize, 2, 3, 4, 7, 16][t.draw(6) as usize] };
-    let gzip = focus != "C10" && t.chance(1, 4) || focus == "C10" && t.chance(1, 8);
+    let chunk = if t.chance(1, 10) { crate::dict::pick_in(t.draw(1 << 16), 1, 4096).unwrap_or(chunk as u64) as usize } else { chunk };
+    let gzip = match focus {
+        "C08" => false,
+        "C09" => true,
+        "C10" => t.chance(1, 8),
+        _ => t.chance(1, 4),
+    };
     let level = 1 + t.draw(9);
     let seed = t.draw(u32::MAX) as u64;
     // Producer program: up to 6 operations.
     let n_ops = 1 + t.draw(if crate::core::deep() { 10 } else { 6 });
     let mut prog = Vec::new();
-    let allow_abort = true;
+    let allow_abort = !matches!(focus, "C08" | "C09");
     for _ in 0..n_ops {
         let op = match t.draw(10) {
             0..=3 => POp::Write(match t.draw(5) {
@@ -444,6 +450,9 @@ pub fn run(ctx: &mut Ctx) -> Result<RunOut, Violation> {
         // A consumer parked while the producer is done (or waits for it) is a lost wake-up.
         return if focus == "C10" || focus == "C11" {
             violation(focus_static(focus), "lost-wakeup", d)
+        } else if matches!(focus, "C08" | "C09") && p.aborted_done_seq.is_none() && c.body_dropped_seq.is_none() {
+            // "...and the body then ends cleanly": it never did.
+            violation(focus_static(focus), "no-clean-end", format!("the writer is gone but the consumer was left parked: {d}"))
         } else {
             Ok(RunOut { sig, nontrivial: false })
         };
@@ -533,6 +542,26 @@ pub fn run(ctx: &mut Ctx) -> Result<RunOut, Violation> {
             }
             Ok(RunOut { sig, nontrivial: p.aborted_done_seq.is_some() || c.body_dropped_seq.is_some() })
         }
+        "C08" | "C09" => {
+            let fsx = focus_static(focus);
+            if c.body_dropped_seq.is_some() || p.aborted_done_seq.is_some() {
+                return Ok(RunOut { sig, nontrivial: false });
+            }
+            if !clean {
+                return violation(fsx, "no-clean-end", describe(&st));
+            }
+            let (dec, gs) = decoded(&c.delivered);
+            if is_gzip && gs != (GzState::Complete { trailing: 0 }) {
+                return violation(fsx, "not-one-gzip-member", format!("{gs:?}; {}", describe(&st)));
+            }
+            if dec != p.accepted {
+                return violation(fsx, "delivered-differs-from-accepted", format!("accepted {} bytes, client decoded {}; {}", p.accepted.len(), dec.len(), describe(&st)));
+            }
+            if c.log.steps.iter().take(c.log.terminal.unwrap_or(0)).any(|s| s.1 == Step::Data(0)) {
+                return violation(fsx, "empty-frame", describe(&st));
+            }
+            Ok(RunOut { sig, nontrivial: st.switches > 0 })
+        }
         "C20" => {
             let Some(term) = c.log.terminal else { return Ok(RunOut { sig, nontrivial: false }) };
             for (k, (_, s)) in c.log.steps.iter().enumerate().skip(term + 1) {
@@ -563,6 +592,8 @@ fn fresh_get(v: &[bool], i: usize) -> &bool {
 
 fn focus_static(f: &str) -> &'static str {
     match f {
+        "C08" => "C08",
+        "C09" => "C09",
         "C10" => "C10",
         "C11" => "C11",
         "C20" => "C20",
